@@ -106,11 +106,17 @@ pub enum Outcome {
     ZcSent(usize),
     /// zero-copy send: the notification arrived and the buffer came back
     ZcDone(Option<TrackedBuf>),
+    /// zero-copy send on a broken socket, driven to its end: every completion the stream
+    /// yielded as (result or errno, "is the kernel's release notification"), and the buffer
+    ZcFail {
+        results: Vec<(Result<usize, i32>, bool)>,
+        buf: Option<TrackedBuf>,
+    },
 }
 
 impl Outcome {
     fn terminal(&self) -> bool {
-        matches!(self, Outcome::Failed(_) | Outcome::ZcDone(_))
+        matches!(self, Outcome::Failed(_) | Outcome::ZcDone(_) | Outcome::ZcFail { .. })
     }
 }
 
@@ -159,6 +165,20 @@ impl Stream for ZcDrive {
             }
         }
     }
+}
+
+/// Awaits a zero-copy send the way compio-net's `submit_zerocopy` + `Zerocopy` future do: every
+/// completion of the stream up to its end, only then the operation (and its buffer) is taken back.
+async fn drive_zc_fail(mut st: SubmitMulti<SendZc<TrackedBuf, TrackedFd>>) -> Outcome {
+    let mut results = Vec::new();
+    while let Some(BufResult(res, extra)) = st.next().await {
+        results.push((res.map_err(|e| errno(&e)), extra.is_notification().unwrap_or(false)));
+        if st.is_terminated() || results.len() >= 4 {
+            break;
+        }
+    }
+    let buf = st.try_take().ok().map(|op| op.into_inner());
+    Outcome::ZcFail { results, buf }
 }
 
 fn errno(e: &std::io::Error) -> i32 {
@@ -307,6 +327,33 @@ fn tcp_pair() -> (OwnedFd, OwnedFd) {
     (OwnedFd::from(a), OwnedFd::from(b))
 }
 
+/// waits (bounded) until the reset sent by the closed peer has arrived at `fd`
+fn wait_reset(fd: RawFd) {
+    let deadline = Instant::now() + Duration::from_millis(2000);
+    loop {
+        let mut p = libc::pollfd { fd, events: libc::POLLIN, revents: 0 };
+        let r = unsafe { libc::poll(&mut p, 1, 0) };
+        if r > 0 && p.revents & (libc::POLLERR | libc::POLLHUP) != 0 {
+            return;
+        }
+        if Instant::now() > deadline {
+            panic!("harness: the peer's reset never arrived");
+        }
+        std::thread::sleep(Duration::from_micros(50));
+    }
+}
+
+/// errno values a zero-copy send on the broken socket of `kind` may fail with
+fn zc_fail_errnos(kind: Kind) -> &'static [i32] {
+    match kind {
+        Kind::ZcErr => &[libc::EPIPE],
+        // the first send after the reset reports it, later ones see the closed write side
+        Kind::ZcRst => &[libc::ECONNRESET, libc::EPIPE],
+        Kind::ZcUx => &[libc::EOPNOTSUPP, libc::EPIPE],
+        _ => &[],
+    }
+}
+
 // ------------------------------------------------------------------------------------------
 // resources
 // ------------------------------------------------------------------------------------------
@@ -333,6 +380,11 @@ enum ResKind {
     },
     Gate(Arc<Gate>),
     File,
+    /// a connected socket the harness broke before any submit: write side shut down (`peer` is
+    /// the open other end) or peer closed with a reset (`peer` is None)
+    Broken {
+        peer: Option<OwnedFd>,
+    },
 }
 
 struct Res {
@@ -369,6 +421,9 @@ struct OpState {
     items: usize,
     consumed: usize,
     result_n: Option<usize>,
+    /// the operation's storage was released while the harness still held its future: the future
+    /// (and the token) were leaked instead of being touched again
+    poisoned: bool,
 }
 
 #[derive(Default, Clone, Debug)]
@@ -538,6 +593,7 @@ impl<'a> World<'a> {
                 items: 0,
                 consumed: 0,
                 result_n: None,
+                poisoned: false,
             });
         }
         w
@@ -600,6 +656,19 @@ impl<'a> World<'a> {
                         },
                         Some(a),
                     )
+                }
+                Kind::ZcErr | Kind::ZcRst | Kind::ZcUx => {
+                    let (a, b) = if first == Kind::ZcUx { socketpair() } else { tcp_pair() };
+                    let peer = if first == Kind::ZcRst {
+                        // SO_LINGER 0 (tcp_pair): the close sends a reset
+                        drop(b);
+                        wait_reset(a.as_raw_fd());
+                        None
+                    } else {
+                        cvt(unsafe { libc::shutdown(a.as_raw_fd(), libc::SHUT_WR) }, "shutdown");
+                        Some(b)
+                    };
+                    (ResKind::Broken { peer }, Some(a))
                 }
                 Kind::Accept => {
                     let name = format!(
@@ -768,7 +837,40 @@ impl<'a> World<'a> {
                 ev: Ev::Har(kind),
             });
         }
+        if n > 0 {
+            self.guard_held_storage();
+        }
         n
+    }
+
+    /// A future / stream the harness holds itself (direct and token modes) owns a reference to
+    /// the operation's storage until it returned the result or is dropped, so the storage cannot
+    /// be released while the harness holds it. If it was, the future now refers to freed memory:
+    /// it is leaked (never polled or dropped again) and the execution goes on without it.
+    fn guard_held_storage(&mut self) {
+        for i in 0..self.ops.len() {
+            let o = &self.ops[i];
+            if o.holder.is_none() || o.spec.mode == Mode::Task {
+                continue;
+            }
+            let Some(id) = o.ids.iter().copied().find(|id| !self.ids[id].frees.is_empty()) else {
+                continue;
+            };
+            let st = self.ids[&id].clone();
+            let name = self.opname(i);
+            std::mem::forget(self.ops[i].holder.take());
+            std::mem::forget(self.ops[i].token.take());
+            self.ops[i].done = true;
+            self.ops[i].poisoned = true;
+            self.fail(
+                "lifetime",
+                format!("storage-freed-while-held:{name}"),
+                format!(
+                    "op {i} ({name}): its storage was freed @{:?} while the program still holds the future that owns a reference to it (Submit@{:?}, intermediate completions @{:?}, final completions @{:?})",
+                    st.frees, st.submit, st.multis, st.finals
+                ),
+            );
+        }
     }
 
     fn fail(&mut self, oracle: &'static str, class: String, msg: String) {
@@ -1044,6 +1146,14 @@ impl<'a> World<'a> {
                     Mode::Token => Holder::Stream(Box::pin(st.with_cancel(token.expect("token")))),
                     Mode::Task => panic!("harness: stream operations cannot be awaited in a task"),
                 }
+            }
+            Kind::ZcErr | Kind::ZcRst | Kind::ZcUx => {
+                let st = rt.submit_multi(SendZc::new(
+                    fd.unwrap(),
+                    TrackedBuf::send(bid, &send_payload(i), &sink),
+                    SendFlags::empty(),
+                ));
+                wrap!(drive_zc_fail(st))
             }
         })
     }
@@ -1495,6 +1605,73 @@ impl<'a> World<'a> {
                     None => self.fail("result", format!("no-buffer:{name}"), format!("zero-copy send {i} finished but the operation could not be taken back")),
                 }
                 self.reach("zerocopy_buffer_returned_after_notification");
+            }
+            Outcome::ZcFail { results, buf } => {
+                let pl = send_payload(i);
+                let shown: Vec<String> = results
+                    .iter()
+                    .map(|(r, notif)| match (r, notif) {
+                        (Ok(n), true) => format!("Notif({n})"),
+                        (Ok(n), false) => format!("Ok({n})"),
+                        (Err(e), true) => format!("NotifErr({e})"),
+                        (Err(e), false) => format!("Err({e})"),
+                    })
+                    .collect();
+                note = format!("ZcFail({})", shown.join(","));
+                let (multis, finals) = self.ops[i].ids.iter().fold((0, 0), |a, id| (a.0 + self.ids[id].multis.len(), a.1 + self.ids[id].finals.len()));
+                // the error is the operation's own: the one the harness arranged
+                match results.first() {
+                    Some((Err(e), false)) if zc_fail_errnos(spec.kind).contains(e) || (cancelled && *e == libc::ECANCELED) => {
+                        self.result_class[i] = format!("zcfail-err{e}");
+                    }
+                    other => {
+                        self.result_class[i] = "zcfail-unexpected".into();
+                        self.fail("result", format!("wrong-error:{name}"), format!("zero-copy send {i} on a broken socket reported {other:?} first (expected one of the errnos {:?})", zc_fail_errnos(spec.kind)));
+                    }
+                }
+                match &results[..] {
+                    // the failed send result flagged "more", then the kernel's release notification
+                    [(_, false), (_, true)] => {
+                        if multis >= 1 && finals == 1 {
+                            self.reach("zerocopy_failed_send_two_completions");
+                        } else {
+                            self.fail("hooks", format!("zc-completions-mismatch:{name}"), format!("zero-copy send {i} yielded {shown:?} but the driver logged {multis} intermediate and {finals} final completions"));
+                        }
+                    }
+                    // the send result was the only completion: this kernel posts no notification
+                    // for a failed zero-copy send — or the buffer came back before it; then a
+                    // second final completion follows and is judged at the end of the execution
+                    [(_, false)] => {
+                        self.reach("zerocopy_failed_send_single_completion");
+                        if multis > 0 {
+                            self.fail("lifetime", format!("zc-buffer-returned-before-notification:{name}"), format!("failed zero-copy send {i} handed its buffer back with its only result {shown:?} although the driver saw {multis} completion(s) flagged 'more' (a notification is still to come)"));
+                        }
+                    }
+                    _ => {
+                        self.fail("result", format!("zc-completion-sequence:{name}"), format!("failed zero-copy send {i} yielded the completions {shown:?} (expected the error, then the release notification)"));
+                    }
+                }
+                // nothing of the payload went out
+                let mut got = Vec::new();
+                if let ResKind::Broken { peer: Some(peer) } = &self.ress[spec.res as usize].kind {
+                    let mut b = [0u8; 16];
+                    let n = read_nb(peer.as_raw_fd(), &mut b);
+                    if n > 0 {
+                        got = b[..n as usize].to_vec();
+                    }
+                }
+                if !got.is_empty() {
+                    self.fail("result", format!("sent-despite-error:{name}"), format!("zero-copy send {i} reported an error but the peer received {:02x?}", got));
+                }
+                match buf {
+                    Some(b) => {
+                        if b.id != self.ops[i].buf_id || b.raw() != &pl[..] {
+                            self.fail("result", format!("foreign-buffer:{name}"), format!("zero-copy send {i} got buffer {} ({:02x?}) back", b.id, b.raw()));
+                        }
+                        drop(b);
+                    }
+                    None => self.fail("result", format!("no-buffer:{name}"), format!("zero-copy send {i} finished but the operation could not be taken back")),
+                }
             }
             Outcome::Bytes(n, buf) => {
                 self.result_class[i] = format!("ok{n}");
@@ -1948,6 +2125,17 @@ impl<'a> World<'a> {
                         class: format!("final-twice:{name}"),
                         msg: format!("op {i} got {} final completions", s.finals.len()),
                     });
+                    // every final completion re-materialises (and then drops) the reference the
+                    // driver leaked into the kernel at submit: two of them release it twice, and
+                    // the first cannot have been the OS's last word about the operation
+                    fails.push(Fail {
+                        oracle: "lifetime",
+                        class: format!("kernel-reference-reclaimed-twice:{name}"),
+                        msg: format!(
+                            "op {i} ({name}): the driver took {} completions for the final one (@{:?}; intermediate @{:?}): the reference held for the kernel was released more than once, and whatever was released after the first (frees @{:?}) was released before the OS's last completion",
+                            s.finals.len(), s.finals, s.multis, s.frees
+                        ),
+                    });
                 }
             }
             let nd = buf_drops.get(&o.buf_id).map(|v| v.len()).unwrap_or(0);
@@ -2005,6 +2193,8 @@ impl<'a> World<'a> {
             let has_final = o.ids.iter().any(|id| !self.ids[id].finals.is_empty());
             let st = if !o.submitted {
                 "-".to_string()
+            } else if o.poisoned {
+                "storage-freed-while-held".into()
             } else if o.delivered {
                 self.result_class[i].clone()
             } else if o.cancel_step.is_some() {
